@@ -1,6 +1,7 @@
 package rules
 
 import (
+	"go/constant"
 	"encoding/json"
 	"fmt"
 	"go/ast"
@@ -386,6 +387,130 @@ func r37GateFirst(c *core.Ctx) {
 	}
 	if usedAllow {
 		r37BuiltinsAvoidReferenceSystem(c)
+	}
+	// (b') inside the gate itself: a call that reaches such a panic stands behind the gate's own rejection of the
+	// field the panic is controlled by (a check added in front of it turns the rejected case into a panic)
+	if iq.SSA != nil {
+		type pf struct {
+			fn     *ssa.Function
+			fields map[string]bool
+		}
+		var panicFns []pf
+		for _, f := range sortedFuncs(c.P) {
+			if f.SSA == nil || allow[f.Name] != "" {
+				continue
+			}
+			if _, ok := reach[f.SSA]; !ok {
+				continue
+			}
+			for _, b := range f.SSA.Blocks {
+				for _, in := range b.Instrs {
+					if _, ok := in.(*ssa.Panic); !ok {
+						continue
+					}
+					fields := map[string]bool{}
+					for _, d := range f.SSA.Blocks {
+						i := core.BlockIf(d)
+						if i == nil || !d.Dominates(b) || d == b {
+							continue
+						}
+						fieldsRead(i.Cond, fields, map[ssa.Value]bool{})
+					}
+					panicFns = append(panicFns, pf{f.SSA, fields})
+				}
+			}
+		}
+		// rejectedBefore: in fn, the call stands on the passing side of a test of one of the fields, made either by
+		// an If of fn that returns on its other side, or inside an error-returning module helper whose verdict fn
+		// tests
+		var rejectedBefore func(fn *ssa.Function, call ssa.Instruction, fields map[string]bool) bool
+		rejectedBefore = func(fn *ssa.Function, call ssa.Instruction, fields map[string]bool) bool {
+			for _, d := range fn.Blocks {
+				i := core.BlockIf(d)
+				if i == nil || !d.Dominates(call.Block()) {
+					continue
+				}
+				got := map[string]bool{}
+				fieldsRead(i.Cond, got, map[ssa.Value]bool{})
+				hit := false
+				for fld := range got {
+					if fields[fld] {
+						hit = true
+					}
+				}
+				if !hit {
+					// the verdict of a helper that tests the field
+					if bo, isB := i.Cond.(*ssa.BinOp); isB && (bo.Op == token.NEQ || bo.Op == token.EQL) {
+						for _, side := range []ssa.Value{bo.X, bo.Y} {
+							if hc, isC := side.(*ssa.Call); isC {
+								if h := hc.Call.StaticCallee(); h != nil && len(h.Blocks) > 0 && core.IsModPath(core.FuncPkgPath(h)) {
+									var hf *core.Func
+									if fo, isFn := h.Object().(*types.Func); isFn {
+										hf = c.P.ByObj[fo.Origin()]
+									}
+									if hf != nil && hf.Decl != nil && hf.Decl.Body != nil {
+										for fld := range errorIfFields(c.P, hf) {
+											if fields[fld] {
+												hit = true
+											}
+										}
+									}
+								}
+							}
+						}
+					}
+				}
+				if !hit {
+					continue
+				}
+				for k, sx := range d.Succs {
+					other := d.Succs[1-k]
+					leaves := false
+					for _, in := range other.Instrs {
+						if _, isRet := in.(*ssa.Return); isRet {
+							leaves = true
+						}
+					}
+					if leaves && (sx == call.Block() || sx.Dominates(call.Block())) && len(sx.Preds) == 1 {
+						return true
+					}
+				}
+			}
+			return false
+		}
+		ng := 0
+		var scan func(fn *ssa.Function, depth int, outerOK bool)
+		scan = func(fn *ssa.Function, depth int, outerOK bool) {
+			for _, b := range fn.Blocks {
+				for _, in := range b.Instrs {
+					call, ok := in.(*ssa.Call)
+					if !ok {
+						continue
+					}
+					cal := call.Call.StaticCallee()
+					if cal == nil || len(cal.Blocks) == 0 || !core.IsModPath(core.FuncPkgPath(cal)) {
+						continue
+					}
+					creach := core.Reachable(g, cal)
+					for _, p := range panicFns {
+						if _, ok := creach[p.fn]; !ok {
+							continue
+						}
+						ng++
+						okHere := outerOK || rejectedBefore(fn, call, p.fields)
+						if !okHere && depth < 1 && cal != p.fn && core.FuncPkgPath(cal) == core.FuncPkgPath(iq.SSA) {
+							// a check helper of the gate: look inside it
+							scan(cal, depth+1, false)
+							continue
+						}
+						c.Check(R, fmt.Sprintf("gate-reaches-panic-only-behind-its-own-rejection/%s/%s", fn.Name(), cal.Name()), call.Pos(), okHere,
+							"the call stands behind the gate's rejection of "+fmt.Sprint(keys(p.fields)), fmt.Sprintf("inside the gate, %s (which can panic in %s, controlled by %v) is called before the gate has rejected that case with an error: validation panics on a set it has to reject", cal.Name(), p.fn.Name(), keys(p.fields)))
+					}
+				}
+			}
+		}
+		scan(iq.SSA, 0, false)
+		c.Note(R, "%d calls inside the gate reach an explicit panic", ng)
 	}
 	// (c) all guards on VariableMatrixWidths use the same emptiness predicate
 	type pred struct {
@@ -872,22 +997,19 @@ func canonRole(info *types.Info, e ast.Expr, role func(types.Object) string) str
 // intervalAround extracts the constant bounds of !FBetweenInc(x, lo, hi) or x < lo || x > hi.
 func intervalAround(info *types.Info, cond ast.Expr) (lo, hi float64, ok bool) {
 	var vals []float64
+	// the largest constant sub-expressions (2.01, 2+eps, a named constant)
 	ast.Inspect(cond, func(n ast.Node) bool {
-		if bl, isLit := n.(*ast.BasicLit); isLit && (bl.Kind == token.FLOAT || bl.Kind == token.INT) {
-			if tv, has := info.Types[bl]; has && tv.Value != nil {
-				var f float64
-				fmt.Sscan(tv.Value.ExactString(), &f)
-				if strings.Contains(tv.Value.ExactString(), "/") {
-					var a, b float64
-					fmt.Sscanf(tv.Value.ExactString(), "%g/%g", &a, &b)
-					if b != 0 {
-						f = a / b
-					}
-				}
-				vals = append(vals, f)
-			}
+		e, isExpr := n.(ast.Expr)
+		if !isExpr {
+			return true
 		}
-		return true
+		tv, has := info.Types[e]
+		if !has || tv.Value == nil || (tv.Value.Kind() != constant.Float && tv.Value.Kind() != constant.Int) {
+			return true
+		}
+		f, _ := constant.Float64Val(constant.ToFloat(tv.Value))
+		vals = append(vals, f)
+		return false
 	})
 	if len(vals) != 2 {
 		return 0, 0, false
